@@ -119,6 +119,10 @@ def type_ok(v, t):
                 return True
         if a.startswith("list[") and isinstance(v, list):
             return True
+        if a.startswith("periodic[") and isinstance(v, list):
+            return True
+        if a == "intset" and isinstance(v, (tuple, list, set, frozenset)):
+            return True
         if a in CLASSES:
             modname, _, cls = CLASSES[a]["class"].rpartition(".")
             if isinstance(v, getattr(importlib.import_module(modname), cls)):
